@@ -496,6 +496,33 @@ def hAdj : Handler := fun args res => do
     (if raw.any (fun r => (outputRegs r.2.2.2).contains ipKey) then ["ipwrite"] else [])
   return { corr, oracle := if bad then some "an independent adjacent pair cannot be swapped" else none, tags }
 
+/-- `depsemu`: C05 observed end to end — the REAL emulator run over the original and over the moved copy of
+every block, from the same machine state.  The harness reports both runs; the oracle is equality of the final
+states (registers incl. the instruction pointer, memories) whenever the run of the original block completes.
+No model result is involved (the moves themselves are tied to the model by the `deps`/`depsx` streams). -/
+def hDepsEmu : Handler := fun _ res => do
+  if res == ["PANIC"] || res == ["CRASH"] then
+    return { oracle := some "panic", tags := ["panic"] }
+  if res.length == 1 && (res.headD "").startsWith "err:" then
+    return { oracleNA := true, tags := ["parse-error"] }
+  let parts := splitAt "|" res
+  let hdr := parts.headD []
+  let accepted := ((hdr.drop 1).headD "0").toNat?.getD 0
+  let blocks := (parts.drop 1).map (splitAt ";;")
+  if blocks.any (fun b => b.length != 3) || hdr.length != 2 then
+    throw "depsemu: malformed result"
+  let okRun (r : List String) := r.headD "" == "ok"
+  let completed := blocks.filter fun b => okRun (b.getD 1 [])
+  let bad := completed.find? fun b => b.getD 1 [] != b.getD 2 []
+  let tags := ["emu-e2e"] ++ (if accepted > 0 then ["e2e-moved"] else ["e2e-unmoved"]) ++
+    (if accepted ≥ 2 then ["e2e-moved2+"] else []) ++
+    (if completed.length < blocks.length then ["e2e-abort"] else []) ++
+    (if completed.isEmpty then ["e2e-none"] else [])
+  match bad with
+  | some b =>
+    return { oracle := some s!"the emulator ends in a different state after the accepted moves: block {" ".intercalate (b.headD [])}", tags }
+  | none => return { oracleNA := completed.isEmpty, tags }
+
 end Driver.Deps
 
 namespace Driver
@@ -503,6 +530,7 @@ namespace Driver
 def depsHandlers : List (String × Handler) := [
   ("deps", Deps.hHistory false),
   ("depsx", Deps.hHistory true),
+  ("depsemu", Deps.hDepsEmu),
   ("depsadj", Deps.hAdj)]
 
 end Driver
